@@ -899,7 +899,14 @@ pub fn call_keydumper<O: KeyDumper + ?Sized>(rv: &mut Recv<O>, mi: usize, a: &mu
 
 use crate::dynobj::{IntoDyn, KBasic, KDup, KGrpA};
 
-pub const CHILDREN: [Meth; 9] = [m("c_owned"), m("c_owned_mut"), m("c_ref"), m("c_mut"), m("c_group"), m("c_group_ref"), m("c_group_mut"), m("c_count"), m("c_nest")];
+pub const CHILDREN: [Meth; 10] = [m("c_owned"), m("c_owned_mut"), m("c_ref"), m("c_mut"), m("c_group"), m("c_group_ref"), m("c_group_mut"), m("c_count"), m("c_nest"), m("c_owned_opt")];
+
+fn opt_args(a: &mut A) -> (Option<bool>, Option<char>, Option<u32>) {
+    let flag = match a.u(1) % 3 { 0 => None, 1 => Some(false), _ => Some(true) };
+    let ch = match a.u(2) % 4 { 0 => None, 1 => Some('\0'), 2 => Some('a'), _ => Some(char::MAX) };
+    let n = match a.u(3) % 3 { 0 => None, 1 => Some(0), _ => Some(a.u(3) as u32) };
+    (flag, ch, n)
+}
 
 fn sub<'a>(a: &A<'a>) -> A<'a> {
     A::new(if a.a.len() > 2 { &a.a[2..] } else { &[] })
@@ -917,6 +924,10 @@ where
 {
     match mi {
         0 => Ret::Obj(rv.r().c_owned(a.u(0)).into_dyn()),
+        9 => {
+            let (flag, ch, n) = opt_args(a);
+            Ret::Obj(rv.r().c_owned_opt(a.u(0), flag, ch, n).into_dyn())
+        }
         1 => Ret::Obj(need_mut!(rv).c_owned_mut(a.u(0)).into_dyn()),
         2 => {
             // borrowed child: used inside the step, twice (the second wrapper reuses the slot)
@@ -1043,6 +1054,11 @@ pub fn call_children_opaque<O: Children + ?Sized>(rv: &mut Recv<O>, mi: usize, a
     match mi {
         0 => {
             let c = rv.r().c_owned(a.u(0));
+            Ret::U(c.b_get())
+        }
+        9 => {
+            let (flag, ch, n) = opt_args(a);
+            let c = rv.r().c_owned_opt(a.u(0), flag, ch, n);
             Ret::U(c.b_get())
         }
         1 => {
